@@ -59,6 +59,38 @@ def sliceBounds (len : Nat) (i j : Option Int) : Nat × Nat :=
   let hi := match j with | none => len | some j => clampIdx len j
   (lo, max lo hi)
 
+/-- `slice(i, j, k).indices(len)` for `k ≠ 0` (CPython `PySlice_AdjustIndices`): `(start, stop)`;
+    for a negative step the open ends are `len - 1` and `-1` -/
+def extBounds (len : Nat) (i j : Option Int) (k : Int) : Int × Int :=
+  let n : Int := len
+  if 0 < k then
+    (match i with | none => 0 | some i => if i < 0 then max (i + n) 0 else min i n,
+     match j with | none => n | some j => if j < 0 then max (j + n) 0 else min j n)
+  else
+    (match i with | none => n - 1 | some i => if i < 0 then max (i + n) (-1) else min i (n - 1),
+     match j with | none => -1 | some j => if j < 0 then max (j + n) (-1) else min j (n - 1))
+
+/-- the positions `cur, cur + k, …` strictly before `stop` (in the direction of `k`), at most `fuel` of them -/
+def extPos : Nat → Int → Int → Int → List Nat
+  | 0, _, _, _ => []
+  | fuel + 1, cur, stop, k =>
+    if (0 < k ∧ cur < stop) ∨ (k < 0 ∧ stop < cur) then cur.toNat :: extPos fuel (cur + k) stop k else []
+
+/-- positions addressed by `l[i:j:k]` on a list of length `len` -/
+def slicePositions (len : Nat) (i j : Option Int) (k : Int) : List Nat :=
+  extPos len (extBounds len i j k).1 (extBounds len i j k).2 k
+
+/-- the items of `l` at the positions `pos` (in that order) -/
+def itemsAt (l pos : List Nat) : List Nat := pos.filterMap (fun p => l[p]?)
+
+/-- `l` with the item at position `pos[t]` replaced by `us[t]` -/
+def replaceAt (pos us l : List Nat) : List Nat :=
+  l.mapIdx (fun p x => if p ∈ pos then us.getD (pos.idxOf p) x else x)
+
+/-- `l` without the items at the positions `pos` -/
+def dropAt (pos l : List Nat) : List Nat :=
+  (l.zipIdx.filter (fun a => decide (a.2 ∉ pos))).map Prod.fst
+
 /-! ### list mutators of `_SubUnitsList` (owner `s`) -/
 
 def append (st : TState) (s u : Nat) : TState :=
@@ -106,6 +138,31 @@ def delSlice (st : TState) (s : Nat) (i j : Option Int) : TState :=
   let cur := (l.drop lo).take (hi - lo)
   let st1 := setParents st cur none
   setChildren st1 s (l.take lo ++ l.drop hi)
+
+/-- `l[i:j:k] = us` with an explicit step.  `k = 0`: `self[i]` raises ValueError before anything happens;
+    `k = 1` is the plain slice assignment; otherwise (extended slice) the current items are orphaned FIRST and
+    then `list.__setitem__` raises ValueError when the sizes differ (the orphaning is not undone). -/
+def setSliceExt (st : TState) (s : Nat) (i j : Option Int) (k : Int) (us : List Nat) : TState × Out :=
+  if k = 0 then (st, .valueError)
+  else if k = 1 then (setSlice st s i j us, .ok)
+  else
+    let l := st.children s
+    let pos := slicePositions l.length i j k
+    let st1 := setParents st (itemsAt l pos) none
+    if us.length = pos.length then
+      let st2 := setChildren st1 s (replaceAt pos us l)
+      (setParents st2 us (some s), .ok)
+    else (st1, .valueError)
+
+/-- `del l[i:j:k]` with an explicit step -/
+def delSliceExt (st : TState) (s : Nat) (i j : Option Int) (k : Int) : TState × Out :=
+  if k = 0 then (st, .valueError)
+  else if k = 1 then (delSlice st s i j, .ok)
+  else
+    let l := st.children s
+    let pos := slicePositions l.length i j k
+    let st1 := setParents st (itemsAt l pos) none
+    (setChildren st1 s (dropAt pos l), .ok)
 
 /-- `l.pop(i)` (default `-1`): remove, then orphan the removed unit -/
 def pop (st : TState) (s : Nat) (i : Int) : TState × Out :=
@@ -168,6 +225,7 @@ inductive Nav where
   | unit (u : Nat)
   | valueError     -- no parent / not in the parent's list
   | indexError     -- first / last
+  | loop           -- `prev_of` / `next_of` did not terminate within the fuel (impossible when the invariant holds)
   deriving Repr, DecidableEq
 
 def prev (st : TState) (u : Nat) : Nav :=
@@ -194,6 +252,29 @@ def next (st : TState) (u : Nat) : Nav :=
       | some v => .unit v
       | none => .indexError
     else .valueError
+
+/-- type queries of `prev_of(t)` / `next_of(t)`: `0` = `Unit` (every unit), otherwise the kind
+    (`1` roll pass, `2` transport, `3` pass sequence) -/
+def isKind (st : TState) (q v : Nat) : Bool := q == 0 || st.kind v == q
+
+/-- `u.prev_of(t)`: `prev = self.prev; while True: if isinstance(prev, t): return prev; prev = prev.prev`
+    (the exceptions of `prev` propagate) -/
+def prevOfAux : Nat → TState → Nat → Nat → Nav
+  | 0, _, _, _ => .loop
+  | fuel + 1, st, u, q =>
+    match prev st u with
+    | .unit v => if isKind st q v then .unit v else prevOfAux fuel st v q
+    | e => e
+
+def nextOfAux : Nat → TState → Nat → Nat → Nav
+  | 0, _, _, _ => .loop
+  | fuel + 1, st, u, q =>
+    match next st u with
+    | .unit v => if isKind st q v then .unit v else nextOfAux fuel st v q
+    | e => e
+
+def prevOf (st : TState) (u q : Nat) : Nav := prevOfAux (st.n + 1) st u q
+def nextOf (st : TState) (u q : Nat) : Nav := nextOfAux (st.n + 1) st u q
 
 def byLabel (st : TState) (s lab : Nat) : Option Nat :=
   (st.children s).find? (fun u => st.label u = lab)
@@ -225,6 +306,8 @@ inductive Op where
   | setSlice (s : Nat) (i j : Option Int) (us : List Nat)
   | delItem (s : Nat) (i : Int)
   | delSlice (s : Nat) (i j : Option Int)
+  | setSliceExt (s : Nat) (i j : Option Int) (k : Int) (us : List Nat)
+  | delSliceExt (s : Nat) (i j : Option Int) (k : Int)
   | pop (s : Nat) (i : Int)
   | remove (s u : Nat)
   | clear (s : Nat)
@@ -246,6 +329,8 @@ def step (st : TState) : Op → TState × Out
   | .setSlice s i j us => (setSlice st s i j us, .ok)
   | .delItem s i => delItem st s i
   | .delSlice s i j => (delSlice st s i j, .ok)
+  | .setSliceExt s i j k us => setSliceExt st s i j k us
+  | .delSliceExt s i j k => delSliceExt st s i j k
   | .pop s i => pop st s i
   | .remove s u => remove st s u
   | .clear s => (clear st s, .ok)
@@ -261,7 +346,20 @@ def run (st : TState) (ops : List Op) : TState :=
 def Op.inserted : Op → List Nat
   | .construct us _ => us
   | .append _ u | .prepend _ u | .insert _ _ u | .setItem _ _ u => [u]
-  | .extend _ us | .iadd _ us | .setSlice _ _ _ us => us
+  | .extend _ us | .iadd _ us | .setSlice _ _ _ us | .setSliceExt _ _ _ _ us => us
+  | _ => []
+
+/-- the units an item / slice assignment takes out of the edited list before it stores the new ones
+    (re-inserting one of these is legitimate: afterwards it is listed once) -/
+def Op.replaced (st : TState) : Op → List Nat
+  | .setItem s i _ =>
+    match normIdx (st.children s).length i with
+    | none => []
+    | some k => ((st.children s).drop k).take 1
+  | .setSlice s i j _ => bySlice st s i j
+  | .setSliceExt s i j k _ =>
+    if k = 1 then bySlice st s i j
+    else itemsAt (st.children s) (slicePositions (st.children s).length i j k)
   | _ => []
 
 end Tree
